@@ -55,11 +55,11 @@ theorem sequential_equals_concurrent (ans : Answers) (ts : List TTree) (k : List
   denote_seqList ans ts k
 
 /-- non-vacuity: two awaited resolvers, two schedules, one result -/
-def g1 : Gate := ⟨"Q.a", [.key "a"]⟩
-def g2 : Gate := ⟨"Q.b", [.key "b"]⟩
+def g1 : Gate := { coord := "Q.a", path := [.key "a"] }
+def g2 : Gate := { coord := "Q.b", path := [.key "b"] }
 def t0 : TTree := .gather [.call g1 (fun o => .done o), .call g2 (fun o => .emit [simpleErr "e"] (.done o))]
   (fun outs => .done (.ok (.list (outs.map fun o => match o with | .ok v => v | .error _ => .none))))
-def ans0 : Answers := fun g => if g = g1 then .ok (.int 1) else .ok (.int 2)
+def ans0 : Answers := fun g => if g.coord == "Q.a" then .ok (.int 1) else .ok (.int 2)
 example : (denote ans0 t0).1 = .ok (.list [.int 1, .int 2]) := by rfl
 example : weight ans0 t0 = 4 := by rfl
 
